@@ -20,7 +20,7 @@ def all_runs(A):
     A.handler_runs()
     for e in EVENTS:
         A.event_runs(e)
-    A.startup_run()
+    A.startup_runs()
     nh_run(A, "joined", "none")
     for b in A.evaluator_methods():
         if b.vis == "Public" and short(b.name) not in EVENTS and short(b.name) != "event_startup":
@@ -225,11 +225,11 @@ def check_C16(A, R, tier):
     K = kinds(A)
     T = A.transitions()
     ev = A.event_runs("event_job_finished_success")
-    st = A.startup_run()
     # states written by the invalidating sites (startup) and their closure
     inv0 = set()
-    for w in st.by_kind("write_state"):
-        inv0 |= set(w["to"]) - C["Finished"]
+    for st in A.startup_runs():
+        for w in st.by_kind("write_state"):
+            inv0 |= set(w["to"]) - C["Finished"]
     H = A.handler_runs()
     # ... and the states written under an 'invalidated' verdict in the consider handler: those from which
     # the consider handler no longer consults the comparison
@@ -387,8 +387,16 @@ def check_C03(A, R, tier):
     inv = invalidated_states(A)
     R.info["invalidated_states"] = A.snames(inv)
     R.floor("R3.1", "invalidated states", len(inv), 2)
-    ims = [b for b in A.evaluator_methods() if b.vis != "Public" and any(
-        blk["term"]["t"]["k"] == "call" and (M.callee_of(blk["term"]["t"]) or ("",))[0] == STRAT + "output_already_present" for blk in b.blocks)]
+    # the startup classification: the function whose loop hands out the jobs in (reverse) topological order
+    from rules_more import loop_of_key
+    imnames = set()
+    for st_ in A.startup_runs():
+        for w in st_.by_kind("write_state"):
+            if is_role(w["key"], "topo"):
+                lk = loop_of_key(A, w)
+                if not isinstance(lk, str):
+                    imnames.add(lk[0].name)
+    ims = [A.facts.body(n) for n in sorted(imnames)]
     R.floor("R3.1", "startup classification function", len(ims), 1)
     if not ims:
         return
@@ -407,14 +415,25 @@ def check_C03(A, R, tier):
         return I, fr, ws
 
     import models
+    def lift_bb(I, fact, fid):
+        idx = dict(((nm[0], tuple(nm[1])), f) for f, nm in I.frame_names.items())
+        ch = list(fact.get("stack") or ()) + [(fact["fn"], fact["bb"])]
+        for i_, (fn_, bb_) in enumerate(ch):
+            if idx.get((fn_, tuple(ch[:i_]))) == fid:
+                return bb_
+        return None
+
     def must_write(I, fr, ws):
         if not ws:
             return False
         body = imo
-        heads = set(w["key"][0][2] for w in ws if isinstance(w["key"][0], tuple))
+        heads = set(w["key"][0][2] for w in ws if isinstance(w["key"][0], tuple) and w["key"][0][1] == fr.fid)
         if len(heads) != 1:
             return False
         h = list(heads)[0]
+        ws = [dict(w, bb=lift_bb(I, w, fr.fid)) for w in ws]
+        if any(w["bb"] is None for w in ws):
+            return False
         sw = body.term(h)["t"]
         loop = body.natural_loop(h)
         errs = error_exit_blocks(A, body)
@@ -774,29 +793,44 @@ def rule_history_after_any_outcome(A, R, rule):
 
 
 def continues(A, run):
-    """does the signal loop get past the handled signal (back edge taken), i.e. the handler did not reject it?"""
+    """Did the handler accept the signal?  After a signal was handed out (a signal-target key was bound in the processor's
+    activation), can the processor still reach a regular return along edges the abstract run took, without passing an
+    error construction / `?` propagation?  (A rejecting handler leaves only error paths.)"""
+    from rules_more import residual_blocks
     sp = A.signal_processor()
-    # the loop that hands out the signals: the binding block of a signal-target key in the processor's own activation
     idx = run._index()
     fid0 = idx.get((sp.name, ()))
     heads = set()
+    transfer = set()
     for k, v in run.facts.items():
         ki = v.get("key") if isinstance(v, dict) else None
         if isinstance(ki, tuple) and len(ki) == 2 and isinstance(ki[0], tuple) and ki[0][:2] == ("b", fid0) and is_role(ki, "sigtarget"):
-            heads.add(ki[0][2])
+            if k[0] == "push_signal" and v.get("container") == "queue" and v["fid"] == fid0:
+                transfer.add(ki[0][2])      # the loop that moves the new signals into the queue
+            else:
+                heads.add(ki[0][2])
+    heads -= transfer
     if not heads:
-        # nothing recorded for the target: fall back to the iterator step that yields Signal values
+        # no fact mentions the target (the handler ignores the signal): take the iterator steps yielding Signal values
         for blk in sp.blocks:
             t = blk["term"]["t"]
             if not blk["cleanup"] and t["k"] == "call" and (M.callee_name(t) or "").endswith("::next") and not t["dest"]["p"] \
-                    and A.L.signal_ty in sp.locals[t["dest"]["l"]]["s"]:
+                    and A.L.signal_ty in sp.locals[t["dest"]["l"]]["s"] and blk["i"] not in transfer:
                 heads.add(blk["i"])
-    if len(heads) != 1:
-        raise Imprecision("cannot find the loop that hands out the signals (%r)" % sorted(heads))
-    h = list(heads)[0]
-    loop = sp.natural_loop(h)
-    es = run.edges.get(fid0, set())
-    return any(b == h and a in loop and a != h for (a, b) in es)
+    if not heads:
+        raise Imprecision("cannot find the loop that hands out the signals")
+    errs = error_exit_blocks(A, sp) | residual_blocks(sp)
+    for h in heads:
+        t = sp.term(h)
+        if t["k"] != "call" or t["t"] < 0:
+            continue
+        sw = t["t"]
+        loop = sp.natural_loop(h)
+        for s0 in [s_ for s_ in sp.succs(sw) if s_ in loop]:
+            r = run.taken_reachable(fid0, s0, errs)
+            if "return" in r or h in r:
+                return True
+    return False
 
 
 def unwrap_of_lookup(A, fn, bb):
